@@ -523,6 +523,14 @@ func (c *Ctx) RapidSeed(leg string, round int) uint64 {
 // signatures are excluded and the leg continues with a fresh PRNG value, so a
 // shallow defect does not hide the ones behind it.
 func (c *Ctx) Rapid(leg string, checks int, prop func(t *rapid.T)) {
+	if only := os.Getenv("VERIF_ONLYLEG"); only != "" && only != leg {
+		return // development switch: run one leg only
+	}
+	if s := os.Getenv("VERIF_LEGCHECKS"); s != "" && os.Getenv("VERIF_ONLYLEG") != "" {
+		if n, err := strconv.Atoi(s); err == nil {
+			checks = n
+		}
+	}
 	c.curLeg = leg
 	t0 := time.Now()
 	defer func() {
@@ -616,6 +624,9 @@ func trunc(s string, n int) string {
 
 // Leg marks a non-rapid leg (enumeration); counters are attributed to it.
 func (c *Ctx) Leg(leg string, f func()) {
+	if only := os.Getenv("VERIF_ONLYLEG"); only != "" && only != leg {
+		return // development switch: run one leg only
+	}
 	c.curLeg = leg
 	t0 := time.Now()
 	defer func() {
